@@ -577,6 +577,62 @@ example : RawClean ⟨"joe", "", ["a", "b"], 1300819380500000000, -1500000000, N
   simp only [List.mem_cons, List.mem_nil_iff, or_false] at hk
   rcases hk with rfl | rfl | rfl | rfl | rfl | rfl | rfl <;> rfl
 
+open Model.JWTClaims GoatProofs.Lemmas.C10ClaimsRT in
+/-- **encodeClaims_field_wins** — for EVERY Claims value (no condition on `Raw`; instants `TimeOK`):
+    the map `encodeClaims` marshals carries, under each registered name, the encoding of the struct
+    FIELD when the field is set — whatever `Raw` holds under that name (e.g. the old value left by a
+    previous Parse) — and `Raw`'s own member only when the field is zero. -/
+theorem encodeClaims_field_wins (c : Claims) (he : TimeOK c.exp) (hn : TimeOK c.nbf) (hi : TimeOK c.iat) :
+    claimsMap c = .ok (theMap c) ∧
+    Wire.lookup "iss" (theMap c) = (if c.iss ≠ "" then some (.str c.iss) else Wire.lookup "iss" (rawKVs c.raw)) ∧
+    Wire.lookup "sub" (theMap c) = (if c.sub ≠ "" then some (.str c.sub) else Wire.lookup "sub" (rawKVs c.raw)) ∧
+    Wire.lookup "jti" (theMap c) = (if c.jti ≠ "" then some (.str c.jti) else Wire.lookup "jti" (rawKVs c.raw)) ∧
+    Wire.lookup "exp" (theMap c) = (if c.exp ≠ NumericDate.zeroTime then some (.num (timeText c.exp)) else Wire.lookup "exp" (rawKVs c.raw)) ∧
+    Wire.lookup "nbf" (theMap c) = (if c.nbf ≠ NumericDate.zeroTime then some (.num (timeText c.nbf)) else Wire.lookup "nbf" (rawKVs c.raw)) ∧
+    Wire.lookup "iat" (theMap c) = (if c.iat ≠ NumericDate.zeroTime then some (.num (timeText c.iat)) else Wire.lookup "iat" (rawKVs c.raw)) ∧
+    Wire.lookup "aud" (theMap c) = (match c.aud with
+      | [] => Wire.lookup "aud" (rawKVs c.raw)
+      | [a] => some (.str a)
+      | l => some (.arr (l.map Wire.str))) :=
+  GoatProofs.Lemmas.C10ClaimsRT.encodeClaims_field_wins c he hn hi
+
+open Model.JWTClaims GoatProofs.Lemmas.C10ClaimsRT in
+/-- **claims_roundtrip without `RawClean`** — `Raw` may hold registered names (token refresh: the
+    parsed Claims carries every old member).  `iss' … jti'` are what a reader of the emitted object
+    sees: for a SET field the field (it wins), for a zero field the well-typed member of `Raw`
+    (`StrIs`, `TimeIs`, `audience`; absent = zero value).  Under the json law, verifiers accepting
+    those values and `now` on the right side of the emitted exp/nbf, `encodeClaims` then
+    `parseClaims` returns exactly them. -/
+theorem claims_roundtrip_general (o : Oracle) (c : Claims)
+    (he : TimeOK c.exp) (hn : TimeOK c.nbf) (hi : TimeOK c.iat)
+    (iss' sub' jti' : String) (aud' : List String) (exp' nbf' iat' : Int)
+    (hiss : (c.iss ≠ "" → iss' = c.iss) ∧ (c.iss = "" → StrIs (rawKVs c.raw) "iss" iss'))
+    (hsub : (c.sub ≠ "" → sub' = c.sub) ∧ (c.sub = "" → StrIs (rawKVs c.raw) "sub" sub'))
+    (hjti : (c.jti ≠ "" → jti' = c.jti) ∧ (c.jti = "" → StrIs (rawKVs c.raw) "jti" jti'))
+    (hexp : (c.exp ≠ NumericDate.zeroTime → exp' = c.exp) ∧ (c.exp = NumericDate.zeroTime → TimeIs (rawKVs c.raw) "exp" exp'))
+    (hnbf : (c.nbf ≠ NumericDate.zeroTime → nbf' = c.nbf) ∧ (c.nbf = NumericDate.zeroTime → TimeIs (rawKVs c.raw) "nbf" nbf'))
+    (hiat : (c.iat ≠ NumericDate.zeroTime → iat' = c.iat) ∧ (c.iat = NumericDate.zeroTime → TimeIs (rawKVs c.raw) "iat" iat'))
+    (haud : (c.aud ≠ [] → aud' = c.aud) ∧
+      (c.aud = [] → audience ⟨rawKVs c.raw, none⟩ = (aud', ⟨rawKVs c.raw, none⟩)))
+    (payload : Bytes) (kvs' : List (String × Wire))
+    (hmarshal : o ⟨"json.marshal", [.obj (theMap c)]⟩ = .bytes payload)
+    (hdecode : o ⟨"json.decodeMap", [.bytes payload]⟩ = .obj kvs')
+    (hjson : ∀ k, Wire.lookup k kvs' = Wire.lookup k (theMap c))
+    (hviss : o ⟨"verifyIssuer", [.str iss', .str sub']⟩ = .bool true)
+    (hvaud : o ⟨"verifyAudience", [.arr (aud'.map Wire.str)]⟩ = .bool true)
+    (hnowE : (Wire.lookup "exp" kvs').isSome = true → (o ⟨"now", []⟩).asInt < exp')
+    (hnowN : (Wire.lookup "nbf" kvs').isSome = true → ¬ (o ⟨"now", []⟩).asInt < nbf') :
+    (encodeClaims c >>= parseClaims).run o = .ok ⟨iss', sub', aud', exp', nbf', iat', jti', .obj kvs'⟩ :=
+  GoatProofs.Lemmas.C10ClaimsRT.claims_roundtrip_general o c he hn hi iss' sub' jti' aud' exp' nbf' iat'
+    hiss hsub hjti hexp hnbf hiat haud payload kvs' hmarshal hdecode hjson hviss hvaud hnowE hnowN
+
+open Model.JWTClaims GoatProofs.Lemmas.C10ClaimsRT in
+/-- the refresh scenario, evaluated: `Claims{Issuer: "new-issuer", Raw: {"iss": "old-issuer", "sub":
+    "kept"}}` is marshalled with `"iss": "new-issuer"`; the zero Subject leaves Raw's "sub" in place -/
+example : theMap ⟨"new-issuer", "", [], NumericDate.zeroTime, NumericDate.zeroTime, NumericDate.zeroTime, "",
+    .obj [("iss", .str "old-issuer"), ("sub", .str "kept")]⟩ =
+    [("iss", .str "new-issuer"), ("sub", .str "kept")] := rfl
+
 /-! ### lemmas of the claims round trip (audience and string claims) -/
 
 open Model.JWTClaims GoatProofs.Lemmas.C10Claims in
